@@ -41,7 +41,7 @@ def obligations(ctx, kind=KIND, prop='C03'):
             for ncols in ((1, 2) if sched != (4, 2) else (2,)):
                 if d >= 9 and (ncols > 1 or sched != (3, 1)): continue
                 obs.append(Ob('%s-large/n%d/c%d/nphase%d/nblock%d' % (kind, 1 << d, ncols, sched[0], sched[1]), ntt.ob, (prop, kind, d, d, ncols, 'other', False), dict(nthreads=(1, 3, 0, 2)[d % 4], sched=sched), weight=(1 << d) * ncols * 4))
-    obs += contract_obs(ctx)
+    obs += contract_obs(ctx) + bitrev_obs(ctx)
     return obs
 def contract_obs(ctx):
     from . import C01
@@ -52,5 +52,6 @@ def contract_obs(ctx):
         for al in ('distinct', 'out=a', 'out=b'):
             obs.append(Ob('contract/Goldilocks::%s/%s' % (op, al), C01.ob_op, (op, 'ref', fn, al)))
     return obs
+def bitrev_obs(ctx): return [Ob('bitrev/all-widths', ntt.ob_bitrev, weight=3)]
 def validate(ctx): return ntt.validate(ctx)
 def replay(ctx, d): return ntt.replay(ctx, d)
